@@ -168,7 +168,8 @@ func runPacedPid(cmd vlib.Cmd, p pacing, pipeSize int, onPid func(int)) (*vlib.R
 	c := &consumer{r: pr, p: p, done: make(chan struct{})}
 	cmd.StdoutTo = pw
 	cmd.OutProgress = func() int64 { return atomic.LoadInt64(&c.n) }
-	cmd.Busy = func() bool { return atomic.LoadInt32(&c.stalled) == 1 }
+	callerBusy := cmd.Busy
+	cmd.Busy = func() bool { return atomic.LoadInt32(&c.stalled) == 1 || (callerBusy != nil && callerBusy()) }
 	// the child inherits pw at Start; the parent's copy is closed once it runs,
 	// so that the consumer sees EOF when the child exits.
 	cmd.OnStart = func(pid int) {
@@ -547,9 +548,8 @@ func c02Silence(r *vlib.Run) {
 				return
 			}
 			full := append(append(fl.ClientArgs(), "--logger", "stdout", "--logLevel", "error"), args...)
-			// (no idle-based hang verdict: the client is legitimately idle while the server scans for many seconds; a run
-			// that never ends is ended by the watchdog and counted as inconclusive)
-			res, out = runPaced(vlib.Cmd{Path: r.Bin("dgrep"), Args: full, Env: fl.ClientEnv(), Dir: fl.Home, Watchdog: 300 * time.Second, NoHangCheck: true}, pacing{Kind: "fast"}, 65536)
+			// (the client is legitimately idle while the server scans for many seconds: hung only if the server is idle too)
+			res, out = runPaced(vlib.Cmd{Path: r.Bin("dgrep"), Args: full, Env: fl.ClientEnv(), Dir: fl.Home, Watchdog: 300 * time.Second, Busy: vlib.PidsBusy(fl.Servers[0].D.Pid())}, pacing{Kind: "fast"}, 65536)
 		} else {
 			home := serverlessHome(r)
 			full := append([]string{"--cfg", "none", "--logger", "stdout", "--logLevel", "error"}, args...)
